@@ -48,14 +48,15 @@ MONITORS = {
 }
 
 
-_CL = ("three real RawNode<MemStorage> voters, synchronous Ready handling, a network that delays / reorders / duplicates / drops messages and partitions nodes; "
-       "random schedules (12..70 ops) of ticks, campaigns, proposals, read requests, deliveries; pre_vote / check_quorum on or off: ")
+_CL = ("three real RawNode<MemStorage> nodes (all voters at the start), synchronous Ready handling, a network that delays / reorders / duplicates / drops messages and partitions nodes; "
+       "random schedules (12..80 ops) of ticks, campaigns, proposals, read requests, deliveries and - in every other case - membership changes (remove / re-add / demote to learner, applied "
+       "when committed; removed nodes keep running); pre_vote / check_quorum on or off: ")
 CLUSTER = {
     "C08": {"bin": "mon_cluster", "args": ["--prop", "C08"], "quick": 15000, "thorough": 300000, "what": _CL + "every ReadState appears on the issuing node with index >= the highest commit index any node had reached at issue time"},
     "C05": {"bin": "mon_cluster", "args": ["--prop", "C05"], "quick": 4000, "thorough": 300000, "what": _CL + "log matching between every pair of nodes after every step"},
     "C03": {"bin": "mon_cluster", "args": ["--prop", "C03"], "quick": 4000, "thorough": 300000, "what": _CL + "leader completeness: committed prefixes are contained in the log of every leader of a later-or-equal term; one value per applied index"},
     "C20": {"bin": "mon_cluster", "args": ["--prop", "C20"], "quick": 15000, "thorough": 300000, "what": _CL + "no library call panics (read contexts are reused, also by different nodes)"},
-    "C04": {"bin": "mon_cluster", "args": ["--prop", "C04"], "quick": 4000, "thorough": 300000, "what": _CL + "a leader's commit index is stored on a majority"},
+    "C04": {"bin": "mon_cluster", "args": ["--prop", "C04"], "quick": 4000, "thorough": 300000, "what": _CL + "an entry a leader commits under an unchanged configuration is stored on a majority of that configuration's voters"},
 }
 
 
